@@ -19,6 +19,15 @@ IterBag(S) ==
       img == {pts[x] : x \in box} IN
   [t \in img |-> Cardinality({x \in box : pts[x] = t})]
 
+(* IterBag(S1) = IterBag(S2), decided without counting when S1 visits every tuple once (then S2 has the same multiset iff it has as
+   many iterations and visits the same SET of tuples); the general case counts *)
+Img(S) == {Apply(S, x) : x \in Box(S.bounds)}
+BoxSize(S) == Prod(S.bounds, 1)
+SameIterSpace(S1, S2) ==
+  LET i1 == Img(S1) IN
+  IF Cardinality(i1) = BoxSize(S1) THEN BoxSize(S2) = BoxSize(S1) /\ Img(S2) = i1
+  ELSE IterBag(S1) = IterBag(S2)
+
 MapCols(S, F(_)) ==  \* apply a column transformation to every row of every operand
   [o \in DOMAIN S.pats |-> [A |-> [i \in DOMAIN S.pats[o].A |-> F(S.pats[o].A[i])], b |-> S.pats[o].b]]
 
